@@ -124,6 +124,7 @@ func (w *World) refFunds(s *Snap, storedOf *Snap, v *accountant.Vertex) (ok bool
 // nodeState is what the oracles remember per node between snapshots.
 type nodeState struct {
 	prev          *Snap
+	parkedKnown   map[Hash]int // parked vertices all of whose parents were in the ledger at the previous snapshot -> retry count
 	confirmedSeen map[Hash]bool
 	baseline      map[Hash]bool // vertices obtained by sync (taken as given)
 	everLive      map[Hash]bool
@@ -166,9 +167,11 @@ func (w *World) checkSnap(cur *Snap) {
 	for _, k := range cur.StrayKeys {
 		w.violate("C07", "store", "record-that-is-neither-vertex-nor-funds-in-vertex-store", cur.Node, "key %q", shortAddr(k))
 	}
-	// a parked vertex all of whose declared parents are in the ledger, one of them only in storage, waits for
-	// ever: the retry looks its parents up in the graph alone (known finding: truncation is not transparent to
-	// vertices that were built on what a node has meanwhile checkpointed)
+	// a parked vertex all of whose declared parents are in the ledger, one of them only in storage: the retry
+	// has to admit it (or refuse it for a reason of its own). Judged by behaviour: the vertex was seen parked
+	// with all its parents known, and is seen parked again with a higher retry count - it was offered again and
+	// sent back to wait for parents the ledger holds
+	parkedKnown := map[Hash]int{}
 	for _, pk := range cur.Parked {
 		v := pk.Vertex
 		all, stored := true, false
@@ -183,9 +186,13 @@ func (w *World) checkSnap(cur *Snap) {
 			all = false
 		}
 		if all && stored {
-			w.violate("C07", "transparent", "vertex-parked-for-ever-behind-checkpointed-parent", cur.Node, "vertex %s weight %d", hx(v.Hash), v.Weight)
+			parkedKnown[Hash(v.Hash)] = pk.Repeated
+			if was, ok := st.parkedKnown[Hash(v.Hash)]; ok && pk.Repeated > was {
+				w.violate("C07", "transparent", "vertex-parked-for-ever-behind-checkpointed-parent", cur.Node, "vertex %s weight %d: retried (count %d -> %d) and parked again although every declared parent is in the ledger", hx(v.Hash), v.Weight, was, pk.Repeated)
+			}
 		}
 	}
+	st.parkedKnown = parkedKnown
 	w.oracleC09(cur)
 	w.oracleC03(cur)
 	w.oracleC10(cur)
